@@ -85,3 +85,5 @@ pub use crate::dcps::status_mask::StatusMask;
 pub use crate::dcps::dcps_domain_participant::discovery_methods::{
     verif_incompatible_qos_for_reader, verif_incompatible_qos_for_writer,
 };
+pub use crate::dcps::channels;
+pub use crate::dcps::status_condition::DcpsStatusCondition;
